@@ -445,6 +445,7 @@ def reset_typestate(c, chk, model):
     elif not napp:
         chk.fail('R1.3', 'append-missing', c.where(model.fn), '"+=" is never accepted')
     element_counter(c, chk, model, assign_state, 'R1.3')
+    defaults_dropped_under_reset(c, chk, 'R1.3')
     # (c) consumers
     for fname in ('cfg_setopt', 'cfg_opt_getval'):
         fn = c.need(fname)
@@ -716,3 +717,36 @@ def deprecated_handling(c, chk, model):
     else:
         chk.ok('R1.7', 'state 0: %d transitions' % n, 'each either tests the completed option (NULL / CFGF_DEPRECATED -> cfg_handle_deprecated) or keeps it pending', sample=True)
     chk.floor('R1.7 transitions out of state 0', n, 8)
+
+
+def defaults_dropped_under_reset(c, chk, rid):
+    """cfg_free_value() keeps the option's annotation only while CFGF_RESET is set (that is how "drop the defaults" differs
+    from "drop everything"): where defaults are dropped because the bit is set, the call comes first and the bit is
+    cleared afterwards"""
+    if rid not in chk.rules:
+        chk.rule(rid, 'defaults are dropped by cfg_free_value() while CFGF_RESET is still set (which preserves the annotation); the bit is cleared after the call')
+    RESET = 64
+    n = 0
+    for fname in ('cfg_setopt', 'cfg_opt_getval'):
+        fn = c.need(fname)
+        ex = sym.Explorer(c.modules, max_visits=2, mod_sets=c.mod_sets, max_paths=60000)
+        bad = None
+        for p in ex.explore(fn):
+            if p.end != 'ret':
+                continue
+            conds = [('' if t else '!') + pm.describe_cond(cn) for cn, t, _ in p.assume]
+            if 'opt->flags has RESET' not in conds:
+                continue
+            free = [i for i, e in enumerate(p.events) if e.kind == 'call' and e.name == 'cfg_free_value' and e.args and e.args[0] == ('p', 'opt')]
+            clr = [i for i, e in enumerate(p.events) if e.kind == 'store' and flag_store(e, RESET) == 'clear']
+            if free and clr:
+                n += 1
+                if clr[0] < free[0]:
+                    bad = bad or p
+        if bad is not None:
+            chk.fail(rid, 'reset-cleared-before-drop:%s' % fname, c.where(fn),
+                     '%s() clears CFGF_RESET before it calls cfg_free_value() to drop the defaults: without the bit cfg_free_value() also releases the '
+                     'option\'s annotation, which a later revert (cfg_opt_setmulti) cannot bring back' % fname)
+        else:
+            chk.ok(rid, fname, 'cfg_free_value(opt) runs with CFGF_RESET still set; the bit is cleared afterwards', sample=True)
+    chk.floor('%s default-dropping paths' % rid, n, 2)
